@@ -76,6 +76,7 @@ theorem shuffleVar_ok (p : Params) (hy : Hyp p) (e : Emit) (M : State) (hw : WF 
       obtain ⟨haltLt, _, _, harg⟩ := hw.inv _ _ altId hv.grpLt hv.outLt hphys
       have ha := hw.var altId haltLt harg
       by_cases hcnd : (!(e.ctx.var altId).outInit || ((e.ctx.var altId).out.isReg &&
+          decide (groupOf (e.ctx.var altId).out.regType = groupOf (e.ctx.var i).cur.regType) &&
           decide ((e.ctx.var altId).out.regId = (e.ctx.var i).cur.regId))) = true
       · simp only [hcnd, if_true] at h
         have hcond : (e.ctx.var altId).out.regId = (e.ctx.var i).cur.regId := by
@@ -90,7 +91,13 @@ theorem shuffleVar_ok (p : Params) (hy : Hyp p) (e : Emit) (M : State) (hw : WF 
                 (e.ctx.var i).out.regId (e.ctx.var i).cur.regId = some ins := hrs
             cases h
             obtain ⟨M', hw', hm, hdn, hk⟩ := swap_ok p hy e M hw i altId hi hreg hd' hne hphys hcond hsw ins hrs' _ _ _ rfl rfl rfl
-            exact ⟨⟨M', hw'⟩, hm, fun h => h, Or.inl hdn, hk⟩
+            refine ⟨⟨M', hw'⟩, hm, fun h => by simp [h], ?_, hk⟩
+            rcases hdn with hdn | hdn
+            · exact Or.inl hdn
+            · refine Or.inr (Or.inl ?_)
+              unfold needsExt at hdn ⊢
+              simp only [Bool.or_eq_true]
+              exact Or.inl (Or.inr hdn)
         · have hsw' : hasSwap p.cfg.arch (groupOf (e.ctx.var i).cur.regType) = false := by simpa using hsw
           simp only [hsw', Bool.false_eq_true, if_false] at h
           cases hla : (e.ctx.w (groupOf (e.ctx.var i).out.regType)).lowestAvailable with
@@ -126,6 +133,7 @@ theorem shuffleVar_ok (p : Params) (hy : Hyp p) (e : Emit) (M : State) (hw : WF 
                 cases h
                 exact fin r0 _ (lowestAvailable_spec _ _ _ hla).1 (lowestAvailable_spec _ _ _ hla).2 hem
       · have hcnd' : (!(e.ctx.var altId).outInit || ((e.ctx.var altId).out.isReg &&
+            decide (groupOf (e.ctx.var altId).out.regType = groupOf (e.ctx.var i).cur.regType) &&
             decide ((e.ctx.var altId).out.regId = (e.ctx.var i).cur.regId))) = false := by simpa using hcnd
         simp only [hcnd', Bool.false_eq_true, if_false] at h
         cases h
@@ -204,7 +212,7 @@ theorem regphase_correct (p : Params) (hy : Hyp p) (e : Emit) (M : State) (hw : 
   obtain ⟨M', hw', hdone⟩ := loop_ok p hy fuel e M {} hw rfl e' h
   refine ⟨M', hw'.runs, fun i hi => ?_⟩
   have hv := hw'.var i hi (hall i hi)
-  obtain ⟨tok, hget, htv, _, hd, _⟩ := hv.tok
+  obtain ⟨tok, hget, htv, _, hd⟩ := hv.tok
   obtain ⟨hreg, hdv⟩ := hd (hdone i hi (hall i hi))
   unfold destOk
   have : M'.get (Loc.reg (groupOf (p.out i).regType) (p.out i).regId) = some tok := by
